@@ -11,8 +11,8 @@ using namespace xmc;
 namespace {
 constexpr int ALIVE = 0, DTOR = 10000, NEXTID = 20000;
 const char* const kOps[] = {"acquire", "acquire_if_equal", "acquire_if_mismatch", "reset", "copy_assign", "move_assign", "swap", "reclaim", "copy_construct",
-                            "from_ptr", "replace_cell", "snapshot_acquire", "snapshot_acquire_if_equal"};
-enum { G_ACQUIRE, G_AIE_MATCH, G_AIE_MISMATCH, G_RESET, G_COPY_ASSIGN, G_MOVE_ASSIGN, G_SWAP, G_RECLAIM, G_COPY_CONSTRUCT, G_FROM_PTR, G_REPLACE, G_SNAP_ACQ, G_SNAP_AIE, NGOPS = 10 };
+                            "from_ptr", "replace_cell", "snapshot_acquire", "snapshot_acquire_if_equal", "hold_K_guards"};
+enum { G_ACQUIRE, G_AIE_MATCH, G_AIE_MISMATCH, G_RESET, G_COPY_ASSIGN, G_MOVE_ASSIGN, G_SWAP, G_RECLAIM, G_COPY_CONSTRUCT, G_FROM_PTR, G_REPLACE, G_SNAP_ACQ, G_SNAP_AIE, G_HOLD_K, NGOPS = 10 };
 
 enum SlotRule { SLOTS_NONE, SLOTS_HP, SLOTS_HE }; // none: never throws; HP: throws iff more than K protecting guards; HE: may share slots
 
@@ -51,7 +51,7 @@ struct Algebra {
   static Node* make() { return new Node((int)cell_add(NEXTID, 1)); }
 
   static void run() {
-    set_op_names(kOps, 13);
+    set_op_names(kOps, 14);
     const int G = (int)opt("guards", 2), D = (int)opt("depth", 3), fill = (int)opt("fill", 0);
     const long mask = opt("ops", 0x3ff);
     const int gens = (int)opt("gens", 1);
@@ -350,7 +350,7 @@ struct Algebra {
 
 // ---- C15: acquire / acquire_if_equal return a snapshot the source actually held during the call
 struct SnapSpec {
-  long cur = 1; // id of the node currently published
+  long cur = 2; // value currently published, encoded as 2 * node id + mark (node 1, mark 0 initially)
   bool apply(const Event& e) {
     switch (e.op) {
       case G_REPLACE: cur = e.a0; return true;
@@ -364,9 +364,9 @@ struct SnapSpec {
   uint64_t hash() const { return (uint64_t)cur; }
 };
 
-template <class R>
+template <class R, int K, class Exc>
 void snapshot_test() {
-  set_op_names(kOps, 13);
+  set_op_names(kOps, 14);
   using Node = GNode<R>;
   using CP = typename R::template concurrent_ptr<Node, 1>;
   using MP = typename CP::marked_ptr;
@@ -382,43 +382,72 @@ void snapshot_test() {
     Node* n = new Node((int)cell_add(NEXTID, 1));
     all[n->id] = n;
   }
-  spawn([=] { // keeps replacing the source pointer
+  // values in the history are encoded as 2 * node id + mark
+  auto enc = [=](MP p) {
+    if (p.get() == nullptr) return 0;
+    int id = 0;
+    for (int k = 1; k < 16; k++)
+      if (all[k] == p.get()) id = k;
+    return id ? 2 * id + (int)p.mark() : 0;
+  };
+  const bool flips = opt("flips", 1) != 0;
+  spawn([=] { // keeps changing the source: a new node, or only the mark of the node that is there
+    int next = 2;
     for (int i = 0; i < reps; i++) {
-      Node* n = all[2 + i];
-      op_begin(G_REPLACE, n->id);
+      int kind = flips ? choose(2) : 0;
       GP g;
-      for (;;) {
+      if (kind == 0) {
+        Node* n = all[next++];
+        op_begin(G_REPLACE, 2 * n->id);
+        for (;;) {
+          g.acquire(*cell, std::memory_order_acquire);
+          MP expected(g);
+          if (cell->compare_exchange_strong(expected, MP(n), std::memory_order_acq_rel, std::memory_order_relaxed)) break;
+        }
+        op_end();
+        g.reclaim();
+      } else {
         g.acquire(*cell, std::memory_order_acquire);
-        MP expected(g);
-        if (cell->compare_exchange_strong(expected, MP(n), std::memory_order_acq_rel, std::memory_order_relaxed)) break;
+        MP expected(g), desired(g.get(), g.mark() ^ 1);
+        op_begin(G_REPLACE, enc(desired));
+        if (!cell->compare_exchange_strong(expected, desired, std::memory_order_acq_rel, std::memory_order_relaxed))
+          fail("ENGINE", "the only writer lost a CAS");
+        op_end();
       }
-      op_end();
-      g.reclaim();
     }
   });
   spawn([=] {
     for (int i = 0; i < acqs; i++) {
-      int kind = choose(3); // acquire | acquire_if_equal(value read before) | acquire_if_equal(first node: soon stale)
+      int kind = choose(flips ? 4 : 3); // acquire | acquire_if_equal(value read before) | (first node: soon stale) | (value read before, other mark)
       if (kind == 0) {
         GP g;
         op_begin(G_SNAP_ACQ);
         g.acquire(*cell, std::memory_order_acquire);
         int id = g ? g->id : 0;
-        op_end(id);
+        op_end(enc(MP(g)));
         if (g && (cell_get(ALIVE + id) != 1)) fail("GUARD", "acquire returned node %d which is already destroyed", id);
       } else {
-        MP expected = kind == 1 ? cell->load(std::memory_order_acquire) : MP(all[1]);
+        MP expected = kind == 2 ? MP(all[1]) : cell->load(std::memory_order_acquire);
+        if (kind == 3) expected = MP(expected.get(), expected.mark() ^ 1);
         // note: `expected` may refer to a node that is retired meanwhile; only its address is used
-        int eid = 0;
-        for (int k = 1; k < 16; k++)
-          if (all[k] == expected.get()) eid = k;
         GP g;
-        op_begin(G_SNAP_AIE, eid);
+        op_begin(G_SNAP_AIE, enc(expected));
         bool ok = g.acquire_if_equal(*cell, expected, std::memory_order_acquire);
-        int id = g ? g->id : 0;
-        op_end(ok, id);
+        op_end(ok, enc(MP(g)));
         if (!ok && g) fail("ALGEBRA", "acquire_if_equal returned false but left the guard non-empty");
         if (ok && MP(g) != expected) fail("ALGEBRA", "acquire_if_equal returned true but the guard differs from the expected value");
+        if (!ok && K > 0) {
+          // C18: the guard is empty now, so it must not occupy a slot: all K slots are available to this thread
+          // (pointer-based slots only: guards of one hazard era would share an entry anyway)
+          op_begin(G_HOLD_K);
+          try {
+            GP h[K > 0 ? K : 1];
+            for (int k = 0; k < K; k++) h[k].acquire(*cell, std::memory_order_acquire);
+          } catch (const Exc&) {
+            fail("SLOTS", "after a refused acquire_if_equal the empty guard still occupies a slot: %d guards cannot be held although K = %d", K, K);
+          }
+          op_end();
+        }
       }
     }
   });
@@ -432,18 +461,19 @@ void snapshot_test() {
   }
   delete cell;
 }
-#define REGS(name, R) XMC_TEST_FN("snap_" name, (&snapshot_test<R>), "acquire snapshot " name)
-REGS("hp", rec::HPs<3>);
-REGS("hpd", rec::HPd<1>);
-REGS("he", rec::HEs<3>);
-REGS("qsbr", rec::QSBR);
-REGS("ebr", rec::EBR);
-REGS("nebr", rec::NEBR);
-REGS("debra", rec::DEBRA);
-REGS("stamp", rec::STAMP);
-REGS("lfrc", rec::LFRC);
-
+namespace xr = xenium::reclamation;
 struct NoExc {};
+#define REGS(name, R, K, E) XMC_TEST_FN("snap_" name, (&snapshot_test<R, K, E>), "acquire snapshot " name)
+REGS("hp", rec::HPs<3>, 3, xr::bad_hazard_pointer_alloc);
+REGS("hpd", rec::HPd<1>, 0, NoExc);
+REGS("he", rec::HEs<3>, 0, NoExc);
+REGS("qsbr", rec::QSBR, 0, NoExc);
+REGS("ebr", rec::EBR, 0, NoExc);
+REGS("nebr", rec::NEBR, 0, NoExc);
+REGS("debra", rec::DEBRA, 0, NoExc);
+REGS("stamp", rec::STAMP, 0, NoExc);
+REGS("lfrc", rec::LFRC, 0, NoExc);
+
 #define REGA(name, R) XMC_TEST_FN("alg_" name, (&Algebra<R, 1000, SLOTS_NONE, NoExc>::run), "guard algebra " name)
 REGA("hpd", rec::HPd<1>);
 REGA("hed", rec::HEd<1>);
@@ -456,7 +486,6 @@ REGA("gebr_thr", rec::GEBR_THR);
 REGA("stamp", rec::STAMP);
 REGA("lfrc", rec::LFRC);
 REGA("lfrc_tl", rec::LFRC_TL);
-namespace xr = xenium::reclamation;
 #define REGHP(K) XMC_TEST_FN("slots_hp_k" #K, (&Algebra<rec::HPs<K>, K, SLOTS_HP, xr::bad_hazard_pointer_alloc>::run), "static hazard pointers, K=" #K)
 #define REGHE(K) XMC_TEST_FN("slots_he_k" #K, (&Algebra<rec::HEs<K>, K, SLOTS_HE, xr::bad_hazard_era_alloc>::run), "static hazard eras, K=" #K)
 REGHP(1);
